@@ -79,15 +79,15 @@ func (c *udpConnRec) RemoveNatEntry() {
 
 // UDP is a UDP handler world: the real packetHandler.Handle loop on a vnet socket.
 type UDP struct {
-	Keys   []*Key
-	List   service.CipherList
-	H      service.PacketHandler
-	PC     net.PacketConn
-	Rec    *UDPRec
-	handle *vrt.Thread
+	Keys     []*Key
+	List     service.CipherList
+	H        service.PacketHandler
+	PC       net.PacketConn
+	Rec      *UDPRec
+	handle   *vrt.Thread
 	Returned bool
-	socks  map[string]*vnet.UDPConn
-	extraPC []net.PacketConn
+	socks    map[string]*vnet.UDPConn
+	extraPC  []net.PacketConn
 	// ViaManager: the proxy sockets are handles obtained from a service.ListenerManager (as in the
 	// server) instead of plain sockets.
 	ViaManager bool
@@ -99,7 +99,39 @@ type UDP struct {
 	// else (the next generation of a reload), so closing the handler's handle does not close the socket
 	KeepOther bool
 	other     net.PacketConn
-	extraTh []*vrt.Thread
+	extraTh   []*vrt.Thread
+	// Svc: datagrams are handled by a service built with NewShadowsocksService and its defaults
+	// (UseService), the way embedders build it
+	Svc service.Service
+}
+
+// UseService: the handler is the one inside service.NewShadowsocksService(ciphers, metrics) with
+// no NAT timeout given (the documented default of 5 minutes applies).
+func (w *UDP) UseService() {
+	svc, err := service.NewShadowsocksService(service.WithCiphers(w.List), service.WithMetrics(&udpSvcMetrics{w.Rec}))
+	if err != nil {
+		panic(err)
+	}
+	w.Svc = svc
+}
+
+func (w *UDP) handlePacket(pc net.PacketConn) {
+	if w.Svc != nil {
+		w.Svc.HandlePacket(pc)
+		return
+	}
+	w.H.Handle(pc)
+}
+
+type udpSvcMetrics struct{ rec *UDPRec }
+
+func (m *udpSvcMetrics) AddUDPNatEntry(clientAddr net.Addr, accessKey string) service.UDPConnMetrics {
+	return m.rec.AddUDPNatEntry(clientAddr, accessKey)
+}
+func (m *udpSvcMetrics) AddOpenTCPConnection(conn net.Conn) service.TCPConnMetrics {
+	return &service.NoOpTCPConnMetrics{}
+}
+func (m *udpSvcMetrics) AddCipherSearch(proto string, accessKeyFound bool, timeToCipher time.Duration) {
 }
 
 func NewUDP(keys []*Key, natTimeout time.Duration, real service.UDPMetrics) *UDP {
@@ -130,7 +162,7 @@ func (w *UDP) Start() {
 		}
 	}
 	w.handle = vrt.Spawn("udp-handle", func() {
-		w.H.Handle(pc)
+		w.handlePacket(pc)
 		w.Returned = true
 	})
 }
@@ -149,7 +181,7 @@ func (w *UDP) StartExtra(addr string) {
 		panic(err)
 	}
 	w.extraPC = append(w.extraPC, pc)
-	w.extraTh = append(w.extraTh, vrt.Spawn("udp-handle-"+addr, func() { w.H.Handle(pc) }))
+	w.extraTh = append(w.extraTh, vrt.Spawn("udp-handle-"+addr, func() { w.handlePacket(pc) }))
 }
 
 // Stop closes the proxy socket(s) and waits for Handle to return.
